@@ -573,6 +573,10 @@ func (m *RefModel) Get(cfg Config, src []byte) *refEntry {
 		return e
 	}
 	m.computed++
+	if len(m.m) >= 40000 {
+		// bound the memory of a long worker: start a new memo (entries are recomputed on demand)
+		m.m = map[refKey]*refEntry{}
+	}
 	out, err, pan := refCompute(cfg, src)
 	e := &refEntry{out: out, cfg: cfg}
 	if err != nil || pan != "" {
